@@ -8,6 +8,9 @@
 * `Model.expected()`             what endpoint lookup (RFC 9176 section 6.3), resource lookup (6.2) and the
                                  registration resources must show, in an order-insensitive canonical form
 * `canon_ep` / `canon_res` / `canon_links`   bring *observed* link-format (parsed by reflink) into the same form
+* `representable_name` / `bad_authority` / `features` / `valueless_names`   what of a registration's content link-format
+                                 (RFC 6690 parmname, quoted-pair) or RFC 3986 (authority) cannot carry as it stands;
+                                 used by the check to NAME a mismatch after its mechanism and to count coverage
 
 Canonical forms
   endpoint entry : (location, sorted tuple of (name, value|None))           name in ep, d, base, rt, extras
@@ -143,6 +146,90 @@ def canon_origin_uri(u):
     return (s, host, port, p if p not in ("", "/") else "", q)
 
 
+# ------------------------------------------------------------------ what link-format and RFC 3986 can carry
+
+# RFC 6690 section 2: parmname = 1*attr-char (RFC 5987: ALPHA / DIGIT / "!#$&+-.^_`|~"), ext-name-star adds a "*"
+_RE_PARMNAME = re.compile(r"^[A-Za-z0-9!#$&+\-.^_`|~*]+$")
+# RFC 3986 3.2: authority = [ userinfo "@" ] host [ ":" port ]; "[" and "]" only as the delimiters of an IP-literal
+_RE_REGNAME = re.compile(r"^(?:[A-Za-z0-9\-._~!$&'()*+,;=]|%[0-9A-Fa-f]{2})*$")
+_RE_USERINFO = re.compile(r"^(?:[A-Za-z0-9\-._~!$&'()*+,;=:]|%[0-9A-Fa-f]{2})*$")
+_RE_IPVFUTURE = re.compile(r"^v[0-9A-Fa-f]+\.[A-Za-z0-9\-._~!$&'()*+,;=:]+$")
+
+
+def representable_name(name):
+    """Can `name` be written as the name of a link-format attribute at all?"""
+    return name is not None and _RE_PARMNAME.match(name) is not None
+
+
+def bad_authority(uri):
+    """True when `uri` has an authority component that RFC 3986 3.2 does not produce (unbalanced or misplaced
+    brackets, something that is no IP literal between them, characters that would need percent-encoding): no
+    reference can be resolved against such a string and it names nothing."""
+    if uri is None:
+        return False
+    a = _split(uri)[1]
+    if a is None:
+        return False
+    if "@" in a:
+        ui, a = a.rsplit("@", 1)
+        if not _RE_USERINFO.match(ui):
+            return True
+    m = re.match(r"^(.*?)(?::([0-9]*))?$", a, re.S)
+    host = m.group(1)
+    if host.startswith("["):
+        if not host.endswith("]") or len(host) < 3:
+            return True
+        inner = host[1:-1]
+        if _RE_IPVFUTURE.match(inner):
+            return False
+        try:
+            ipaddress.IPv6Address(inner)
+        except ValueError:
+            return True
+        return False
+    return _RE_REGNAME.match(host) is None
+
+
+def features(r):
+    """Which of the things a registration may legitimately be *asked* to store, but that a careless directory trips
+    over, does the model registration `r` contain? (Used to name a violation after its mechanism and to count what
+    the generated histories covered -- never to decide whether something is a violation.)"""
+    f = set()
+    if "link-escapes" in r.marks:
+        f.add("link-attribute-value")
+    ep, d = r.key
+    for k, vs in r.extras:
+        if not representable_name(k):
+            f.add("parameter-name")
+        for v in vs:
+            if v is None:
+                f.add("valueless-parameter")
+            elif "\\" in v:
+                f.add("parameter-value")
+    if "\\" in ep or (d is not None and "\\" in d):
+        f.add("parameter-value")
+    if bad_authority(r.base):
+        f.add("base")
+    for l in r.links:
+        for k, v in l.params:
+            if v is None:
+                f.add("valueless-link-attribute")
+            elif "\\" in v:
+                f.add("link-attribute-value")
+            if k == "anchor" and bad_authority(v):
+                f.add("link-target")
+        if bad_authority(l.href):
+            f.add("link-target")
+    return f
+
+
+def valueless_names(r):
+    """Names of the registration parameters and link attributes of `r` that were given without a value."""
+    out = set(k for k, vs in r.extras for v in vs if v is None)
+    out.update(k for l in r.links for k, v in l.params if v is None)
+    return out
+
+
 # ------------------------------------------------------------------ query strings
 
 
@@ -199,9 +286,16 @@ def canon_res(links):
 
 
 class Reg:
-    __slots__ = ("key", "loc", "lt", "base", "base_explicit", "extras", "links", "t", "alts", "writer", "unresolved", "slack")
+    __slots__ = ("key", "loc", "lt", "base", "base_explicit", "extras", "links", "t", "alts", "writer", "unresolved", "slack", "marks", "latent")
 
     def __init__(self):
+        # [(lt, why)] lifetimes of unsuccessful requests that were seen NOT to have restarted the timer (the registration
+        # outlived them), but that the directory may have stored all the same: they would come into force with the next
+        # successful update that carries no lt ("the previous lt is retained")
+        self.latent = []
+        # notes of the check about how the links were written on the wire (e.g. "link-escapes": quoted-pairs were
+        # used); only ever used to name a violation, see features()
+        self.marks = set()
         # The write happened somewhere in [t - slack, t]. Requests to the directory are answered within
         # milliseconds (slack 0); a simple registration (RFC 9176 5.1) is carried out at some instant between the
         # registrant's POST and the directory's answer, while the directory fetches /.well-known/core.
@@ -334,10 +428,11 @@ class Model:
         reg.writer = src
         if any(k == "lt" for (k, _v) in query):
             reg.alts = []
+            reg.latent = []
         else:
             # "the previous lt is retained": if a rejected request had changed it unseen, it is that one
             kept = []
-            for _t, lt, why in reg.alts:
+            for lt, why in [(lt, why) for (_t, lt, why) in reg.alts] + list(reg.latent):
                 if lt != reg.lt and not any(a[1] == lt and a[2] == why for a in kept):
                     kept.append((now, lt, why))
             reg.alts = kept
@@ -345,6 +440,7 @@ class Model:
             reg.unresolved = False
         if links is not None:
             reg.links = list(links)
+            reg.marks = set()
 
     def note_rejected(self, reg, query, now, why):
         """A request addressed to `reg` was answered 4.xx. lt is not visible in any lookup (RFC 9176 6.3), so
@@ -352,16 +448,21 @@ class Model:
         remember the lifetimes it would have produced."""
         lts = _values(list(query), "lt")
         if len(lts) == 1 and _is_uint(lts[0]):
-            cand = [int(lts[0])]
+            cand = [(int(lts[0]), why)]
         else:
-            cand = [reg.lt] + [lt for (_t, lt, _w) in reg.alts]
-        for lt in dict.fromkeys(cand):
-            reg.alts.append((now, lt, why))
+            # the lifetime it would have restarted is the current one -- or one that an earlier unsuccessful request
+            # left behind unseen, which then stays filed under that earlier request
+            cand = [(reg.lt, why)] + [(lt, w) for (_t, lt, w) in reg.alts if lt != reg.lt] + [(lt, w) for (lt, w) in reg.latent if lt != reg.lt]
+        for lt, w in dict.fromkeys(cand):
+            reg.alts.append((now, lt, w))
 
     def prune_refuted(self, now):
         """Called when every live registration was just seen listed: a remembered lifetime that would have
         ended by now is refuted."""
         for r in self.live.values():
+            for t, lt, w in r.alts:
+                if t + lt + self.grace <= now and lt != r.lt and (lt, w) not in r.latent:
+                    r.latent.append((lt, w))  # did not restart the timer; may have been stored nevertheless
             r.alts = [(t, lt, w) for (t, lt, w) in r.alts if t + lt + self.grace > now]
 
     def _apply_params(self, r, pairs, src, lenient):
@@ -500,6 +601,15 @@ def selftest():
     assert default_base("::ffff:10.0.0.2", 40000) == "coap://10.0.0.2:40000"
     assert default_base("2001:db8::2", 5683) == "coap://[2001:db8::2]"
     assert canon_origin_uri("COAP://[2001:DB8::2]:5683/") == canon_origin_uri("coap://[2001:db8:0::2]")
+    for name, ok in [("foo", True), ("et", True), ("title*", True), ("", False), ("a b", False), ("a;b", False), ("x,</reg/9/>;ep", False), ('a"b', False), ("a/b", False), ("n\u00e9", False), ("a%b", False), (None, False)]:
+        assert representable_name(name) == ok, name
+    for uri, bad in [
+        ("coap://[2001:db8::1]", False), ("coap://[2001:db8::1]:61616/p", False), ("coap://host.example:61616/p/q", False), ("coap+tcp://h.example/dev/", False),
+        ("coap://10.0.0.2:40000", False), ("coap://[v1.fe:x]/", False), ("coap://u:p@h/", False), ("coap://h%41/", False), ("/rel", False), ("x", False), ("", False), (None, False),
+        ("coap://[", True), ("coap://[::1", True), ("coap://[zz]/p/", True), ("coap://h.example]/x", True), ("coap://[]/", True), ("coap://[::1]x/", True),
+        ("coap://ex\u2100mple/", True), ("http://[", True), ("//[::1/x", True), ("coap://a b/", True), ("coap://h/[", False),
+    ]:
+        assert bad_authority(uri) == bad, uri
     m = Model(15)
     L = reflink.parse('</a>;rt="x y",<r>;anchor="/z"')
     r = m.register(("n", None), "/reg/1/", parse_query(["ep=n", "lt=60", "foo=1"]), L, ("10.0.0.2", 40000), 0.0)
@@ -521,6 +631,20 @@ def selftest():
     assert s.base == "coap://[2001:db8::2]:61616" and not s.base_explicit and m.windows() == [(182.0, 275.0)]
     m.update(s, parse_query([]), ("2001:db8::2", 61616), 210.0)
     assert m.windows() == [(285.0, 285.0)]
+    assert features(s) == set() and valueless_names(s) == set()
+    o = m.register(("tr\\", None), "/reg/3/", parse_query(["ep=tr\\", "a;b=c", "if", "foo=x\\", "base=coap://["]), reflink.parse('</a>;obs;title="q\\\\",<http://[>,</b>;anchor="//[zz]"'), ("10.0.0.2", 5683), 300.0)
+    assert features(o) == {"parameter-name", "parameter-value", "valueless-parameter", "base", "link-attribute-value", "valueless-link-attribute", "link-target"}, features(o)
+    assert valueless_names(o) == {"if", "obs"}
+    m.note_rejected(s, parse_query(["lt=2"]), 215.0, "update-put")
+    m.prune_refuted(240.0)
+    assert s.alts == [] and s.latent == [(2, "update-put")]
+    m.update(s, parse_query([]), ("2001:db8::2", 61616), 241.0)
+    assert s.alts == [(241.0, 2, "update-put")] and s.lt == 60
+    m.update(s, parse_query(["lt=60"]), ("2001:db8::2", 61616), 242.0)
+    assert s.alts == [] and s.latent == []
+    m.note_rejected(s, parse_query(["lt=7"]), 220.0, "update-post")
+    m.note_rejected(s, parse_query([]), 230.0, "update-put")
+    assert s.alts == [(220.0, 7, "update-post"), (230.0, 60, "update-put"), (230.0, 7, "update-post")], s.alts
     return True
 
 
